@@ -196,6 +196,22 @@ func (view *View) group(ctx context.Context, scope *ReferenceScope, items []pars
 		return ConvertContextError(ctx.Err())
 	}
 
+	if 1 < gm.Number {
+		// The goroutines registered the keys in the order they happened to run. Restore the order in which
+		// the groups first occur in the records, which is what a single goroutine produces.
+		firstIndices := make(map[string]int, len(groupKeys))
+		for i := range groupsList {
+			for k, indices := range groupsList[i] {
+				if f, ok := firstIndices[k]; !ok || indices[0] < f {
+					firstIndices[k] = indices[0]
+				}
+			}
+		}
+		sort.Slice(groupKeys, func(i, j int) bool {
+			return firstIndices[groupKeys[i]] < firstIndices[groupKeys[j]]
+		})
+	}
+
 	for i := range groupsList {
 		for k := range groupsList[i] {
 			groupKeyCnt[k] = groupKeyCnt[k] + len(groupsList[i][k])
